@@ -57,8 +57,8 @@ PROPS = {
     ]),
     'C07': dict(units=['core_all', 'reg', 'events', 'hk'], level='proof',
                 kani=[K('reg_packets_layout', 'C07.kani.reg_packets_carry_type_and_id')]),
-    'C16': dict(units=[], level='proof',
-                not_covered=['exact factors x0.85 (back-off), x0.75 (drain entry) and the 6 % per-tick growth bound: float multiplier reasoning, the three Kani harnesses (kx/src/cc.rs: cc_tick_backoff_085, cc_tick_drain_075, cc_tick_growth_at_most_6_percent) did not terminate in 40 min and are NOT run', 'LinkCcController::tick_all (per-link map glue, garbage collection of vanished links)'],
+    'C16': dict(units=['ccglue'], level='proof',
+                not_covered=['exact factors x0.85 (back-off), x0.75 (drain entry) and the 6 % per-tick growth bound: float multiplier reasoning, the three Kani harnesses (kx/src/cc.rs: cc_tick_backoff_085, cc_tick_drain_075, cc_tick_growth_at_most_6_percent) did not terminate in 40 min and are NOT run'],
                 kani=[
         K('cc_tick_range_and_wf', 'C16.kani.tick.target_in_range_and_floor_until_rtt_sample'),
         K('cc_tick_lowered_only_by_backoff_or_drain_entry', 'C16.kani.tick.lowered_only_by_backoff_or_drain_entry'),
